@@ -38,8 +38,9 @@ MODELLED_NOT_VERIFIED = [
     "TREES block are outside the model (the model reader refuses them; the harness sends one-tree-list documents only)",
     "C02: NeXML is modelled on the ELEMENT STRUCTURE only (ops nexml-write, nexml-read, nexml-rt: otus / otu / tree / node / edge / rootedge with their "
     "id, label, otu, root, source, target, length attributes, the writer's id counter, the reader's parent assignment in edge order, seed detection and "
-    "rootedge); the XML text, attribute quoting (_protect_attr / quoteattr) and xml.etree parsing are trusted: the harness reads the library's text with "
-    "xml.etree directly and hands the element structure over; documents a writer does not produce (duplicate ids, re-parented nodes, several "
+    "rootedge); attribute quoting (_protect_attr / quoteattr) and the parser's reading of a quoted value are modelled and proved (ops attr-quote, attr-parse, "
+    "theorem label_attr_roundtrip; hexadecimal references and XML-illegal control characters are outside the model); the rest of the XML text and "
+    "xml.etree parsing are trusted: the harness reads the library's text with xml.etree directly and hands the element structure over; documents a writer does not produce (duplicate ids, re-parented nodes, several "
     "parentless nodes) are refused by the model; nxRead(nxWrite(trees)) = trees is compared on every case, not proved",
     "C02: float <-> text is Python's repr/float (lengths are opaque strings in the model); NTAX is Lean's Nat.repr against Python's str(int) (token "
     "comparison); case folding is a parameter of the model (theorems hold for every folding); the driver is handed str.lower() of the characters that "
@@ -62,6 +63,10 @@ EXPLANATION = ("Theorems (Props/C02.lean, all about the definitions drv_c02 runs
                "in by the caller - and the trees; default_translate_table: the default table (token = accession index + 1, member order) has plain-word "
                "tokens and lists the namespace in member order; nexml_write_shape_partial: the NeXML writer model's id "
                "bookkeeping (one node and one edge element per node, counter arithmetic, seed first with root=\"true\" iff rooted, rootedge first) - "
+               "nexml_otus_roundtrip: the otus block the NeXML writer model emits is read back by the reader model as the same namespace, same "
+               "order (fresh or the caller's), so any document nxRead accepts has that namespace - "
+               "label_attr_roundtrip: for EVERY string, the XML parser model reads the value quoteattr writes (entities for & < >, character "
+               "references for tab / LF / CR, quote choice, &quot;) back as that string - "
                "partial: the NeXML reader-after-writer identity is compared on every case (op nexml-rt) but not proved; float <-> text is trusted.")
 
 SCHEMAS = ("newick", "nexus", "nexml")
@@ -1102,6 +1107,24 @@ def run_label(ctx, dendropy, label, ps, uu, pu, pending, follow=":"):
     nd = dendropy.Node(taxon=dendropy.Taxon(label=label))
     n = w._render_node_tag(nd)
     pending.append(("escape %d %d n %s" % (ps, not uu, hex6(label)), ("escape-n", case, None), hex6(n)))
+    # NeXML attribute protection: the library's quoted value against the model's, the XML parser's reading of it against
+    # the model's, and the oracle (clause d): the value read back is the label
+    try:
+        from dendropy.dataio import nexmlwriter
+        from xml.etree import ElementTree as ET
+        qa = nexmlwriter._protect_attr(label)
+        pending.append(("attr-quote %s" % hex6(label), ("attr-quote", case, None), hex6(qa)))
+        try:
+            back = ET.fromstring("<a x=%s y='1'/>" % qa).get("x")
+        except ET.ParseError:
+            back = None
+        pending.append(("attr-parse %s" % hex6(qa + " y='1'/>"), ("attr-parse", case, None),
+                        "ERR" if back is None else "ok %s %s" % (hex6(back) if back else "=", hex6(" y='1'/>"))))
+        if back != label:
+            ctx.fail("nexml-attr", "label %r written by _protect_attr as %s is read back by the XML parser as %r" % (label, qa, back),
+                     with_history(case))
+    except ImportError:
+        pass
     for esc, which in ((d, "default"), (n, "newick")):
         text = esc + follow + "x"
         toks = impl_tokens(dendropy, text, pu)
